@@ -67,6 +67,7 @@ func main() {
 		verbose := fs.Bool("v", false, "")
 		stats := fs.Bool("stats", false, "print a STATS line for the parent worker")
 		prelude := fs.String("prelude", "", "JSON array of scenarios to execute first in this process")
+		repeat := fs.Int("repeat", 1, "execute the scenario up to this many times, until it shows a violation (intermittent violations)")
 		fs.Parse(os.Args[2:])
 		p, ok := core.Lookup(*prop)
 		if !ok {
@@ -111,6 +112,11 @@ func main() {
 		}
 		log := core.NewLog(*verbose)
 		res, err := core.SafeExecute(p, sc, *phase, log)
+		for i := 1; i < *repeat && err == nil && res.Violation == nil; i++ {
+			core.WatchdogArm(raw) // every execution has the CPU budget of its own
+			log = core.NewLog(*verbose)
+			res, err = core.SafeExecute(p, sc, *phase, log)
+		}
 		if err != nil {
 			fmt.Fprintln(os.Stderr, err)
 			os.Exit(2)
